@@ -120,6 +120,7 @@ def l2(ctx, rep):
                 isinstance(x, ast.Attribute) and x.attr in ('empty', 'size') for x in ast.walk(t)),
             'dtype': lambda t: any(isinstance(x, ast.Attribute) and x.attr in ('dtype', 'dtypes') for x in ast.walk(t)),
             'nan': lambda t: any(isinstance(x, ast.Call) and call_name(x) in ('isnan', 'isnull', 'isna') for x in ast.walk(t))}
+    weak_seen = set()
     for c in calls:
         st_c = stmt_of(c)
         paths = [p for p in enum_paths(w.body()) if p.end is st_c or st_c in p.stmts]
@@ -134,6 +135,11 @@ def l2(ctx, rep):
                         other = iff.orelse if pol else iff.body
                         if isinstance(iff, ast.If) and raises(other, ('ValueError',)):
                             hit = True
+                            weak = _weakened(test, pred)
+                            if weak is not None and (kind, id(test)) not in weak_seen:
+                                weak_seen.add((kind, id(test)))
+                                rep.bad('L2.guards', w, test, f'the {kind} guard only fires when `{short(weak, 50)}` also holds: '
+                                        'inputs for which that extra condition is false skip the check', construct=f'{kind} guard condition')
                 ok = ok and hit
             rep.check('L2.guards', w, c, ok, f'{kind} guard raising ValueError dominates the wrapped call',
                       f'the wrapped fit can be reached without the {kind} check', construct=f'{kind} guard')
@@ -143,6 +149,15 @@ def l2(ctx, rep):
                  and isinstance(n.value, ast.Name) and n.value.id == sp]
         rep.check('L2.guards', w, w.node.name, not early, 'the wrapper writes nothing to self',
                   'the wrapper writes to the model before validation', construct='no self writes')
+
+
+def _weakened(test, pred):
+    """If the raising test is a conjunction, return a conjunct that is not the guard predicate itself."""
+    if isinstance(test, ast.BoolOp) and isinstance(test.op, ast.And):
+        extra = [v for v in test.values if not pred(v)]
+        if extra:
+            return extra[0]
+    return None
 
 
 # ------------------------------------------------------------------ L3 state carried over
